@@ -87,3 +87,58 @@ Definition check_run (vc : vcase) (r : vrun) : verdict :=
 
 Definition check_case (vc : vcase) : list verdict := map (check_run vc) (vc_runs vc).
 
+
+(* ---- histories on one context (C05, C18): setters, renders, resets ---- *)
+Inductive hstep :=
+| HSet (k : bytes) (v : value) (static : bool)
+| HSetBytes (k : bytes) (b : bytes)
+| HSetCounter (k : bytes) (n : Z)
+| HRender (t : tree) (out : bytes) (e : N) (events : list event)   (* with what the real engine showed *)
+| HReset (events : list event).                                     (* Reset / Release+Acquire: pooled objects go back *)
+
+Record hcase := mkHCase {
+  hc_reg : list (bytes * tree);
+  hc_flits : list (bytes * Z);
+  hc_budget : nat;
+  hc_steps : list hstep }.
+
+Definition event_eqb (a b : event) : bool :=
+  match a, b with
+  | EvDefer x, EvDefer y => bytes_eqb x y
+  | EvRun x n, EvRun y m => bytes_eqb x y && Nat.eqb n m
+  | EvAcquire x _, EvAcquire y _ => bytes_eqb x y   (* position relative to writes is only meaningful for the outermost writer *)
+  | EvRelease x, EvRelease y => bytes_eqb x y
+  | _, _ => false
+  end.
+
+Fixpoint events_eqb (a b : list event) : bool :=
+  match a, b with
+  | [], [] => true
+  | x :: a', y :: b' => event_eqb x y && events_eqb a' b'
+  | _, _ => false
+  end.
+
+Definition clear_log (c : ctx) : ctx :=
+  mkCtx (vars c) (chQB c) (chJQ c) (chHE c) (chUE c) (bufLC c) (brkD c) (cerr c) (bufB c) (dfr c) (ipv c) (wd c) [].
+
+Inductive hverdict := HOk | HSkip | HBad (out : string) (e : N) (nev : nat).
+
+Fixpoint check_history (hc : hcase) (steps : list hstep) (c : ctx) : list hverdict :=
+  match steps with
+  | [] => []
+  | HSet k v st :: r => check_history hc r (ctx_set k v st c)
+  | HSetBytes k b :: r => check_history hc r (ctx_set_bytes k b c)
+  | HSetCounter k n :: r => check_history hc r (ctx_set_counter k n c)
+  | HReset evs :: r =>
+    let c1 := ctx_reset (clear_log c) in
+    (if events_eqb (rev (elog c1)) evs then HOk else HBad EmptyString 0 (length (elog c1))) :: check_history hc r (clear_log c1)
+  | HRender t out e evs :: r =>
+    match render (hc_flits hc) (reg_lookup (hc_reg hc)) (hc_budget hc) 8 t (clear_log c) (wr_new None 0) with
+    | Out c1 w1 e1 =>
+      (if bytes_eqb (wr_bytes w1) out && N.eqb (err_code e1) e && events_eqb (rev (elog c1)) evs then HOk
+       else HBad (hex_string (wr_bytes w1)) (err_code e1) (length (elog c1))) :: check_history hc r c1
+    | _ => [HSkip]     (* outside the model: the rest of the history is not judged *)
+    end
+  end.
+
+Definition run_history (hc : hcase) : list hverdict := check_history hc (hc_steps hc) ctx_new.
